@@ -28,19 +28,6 @@ pub open spec fn has_ident(e: Expression) -> bool
 
 pub open spec fn lvl(e: Expression) -> nat { if has_ident(e) { 1 } else { 0 } }
 
-pub open spec fn solvable(e: Expression) -> bool {
-    match e {
-        Expression::Boolean(_) | Expression::Cast(_, _) | Expression::Field(_) | Expression::Float(_)
-        | Expression::Integer(_) | Expression::Null => false,
-        _ => true,
-    }
-}
-
-pub open spec fn is_cmp(op: BoolSym) -> bool {
-    op == BoolSym::Equal || op == BoolSym::GreaterThan || op == BoolSym::GreaterThanOrEqual
-        || op == BoolSym::LessThan || op == BoolSym::LessThanOrEqual
-}
-
 // Well-formedness: what loading must establish so that evaluation cannot hit a panic site (C03).
 pub open spec fn wf(e: Expression, ids: Ids) -> bool
     decreases e,
